@@ -2,6 +2,7 @@
 proof: PqVerif.Props.C06 ; tie: exhaustive correspondence of the Lean models with the real
 functions ; search: the bijection evaluated directly on the real functions."""
 import itertools
+import os
 import numpy as np
 from pqv.core import fmt_list, fmt_rows
 
@@ -151,6 +152,43 @@ def direct_search(ctx, dmax, cmax, fdmax):
     return out
 
 
+BC_CODE = r"""
+import sys, random, traceback
+sys.path.insert(0, %r)
+from pqv.props import c06
+class Ctx: pass
+ctx = Ctx(); ctx.rng = random.Random(%d); ctx.tier = "quick"
+last = None; n = 0
+try:
+    for line, exp, tag, nt in c06.real_ops(ctx, %d, %d, %d, %d):
+        last = (line[:120], tag); n += 1
+    c06.direct_search(ctx, 4, 5, 5)
+    print("BC-OK", n)
+except IndexError as e:
+    tb = [t for t in traceback.extract_tb(e.__traceback__) if "c06.py" in t.filename][-1]
+    print("BC-OOB after", repr(last), "in:", tb.line)
+"""
+
+
+def bounds_checked(ctx, dmax, cmax, fdmax, nrand):
+    """memory safety of the numba-compiled index functions: the same operations with NUMBA_BOUNDSCHECK=1 in a
+    separate process (own cache directory): an out-of-bounds read/write is an IndexError instead of silent heap damage"""
+    import subprocess, sys
+    harness = os.path.abspath(os.path.join(os.path.dirname(__file__), "..", ".."))
+    cache = os.path.join(os.environ.get("NUMBA_CACHE_DIR") or os.path.join(harness, "..", ".numba_cache", "adhoc"), "boundscheck")
+    os.makedirs(cache, exist_ok=True)
+    env = dict(os.environ, NUMBA_BOUNDSCHECK="1", NUMBA_CACHE_DIR=cache)
+    p = subprocess.run([sys.executable, "-c", BC_CODE % (harness, ctx.seed + 6, dmax, cmax, fdmax, nrand)],
+                       env=env, capture_output=True, text=True, cwd=os.environ.get("PQ_REPO", "/repo"))
+    out = p.stdout.strip().splitlines()
+    ctx.count("boundscheck", True)
+    ctx.notes["boundscheck"] = (out[-1] if out else "")[:300]
+    if out and out[-1].startswith("BC-OK"):
+        return
+    msg = out[-1] if out else f"bounds-checked process exited with {p.returncode}: {p.stderr.strip()[-200:]}"
+    ctx.fail("oob:" + msg[:80], "numba bounds check: " + msg[:300], {"boundscheck": msg, "params": [dmax, cmax, fdmax, nrand]})
+
+
 def run(ctx):
     quick = ctx.tier == "quick"
     dmax, cmax, fdmax, nrand = (5, 6, 7, 2000) if quick else (7, 9, 10, 10000)
@@ -160,6 +198,13 @@ def run(ctx):
     ctx.assumptions = ["numba int64/int32 arithmetic modelled as Nat with explicit int32 wrap",
                        "lru_cache on get_fock_space_basis ignored"]
     ctx.prove("PqVerif.Props.C06", THEOREMS, FILES)
+    import subprocess, glob, sys
+    for f in sorted(glob.glob(os.path.join(os.path.dirname(__file__), "..", "..", "..", "corpus", "repro", "c06_*.py"))):
+        p = subprocess.run([sys.executable, f], capture_output=True, text=True, cwd=os.environ.get("PQ_REPO", "/repo"))
+        ctx.count("repro:" + os.path.basename(f), True)
+        if p.returncode != 0:
+            ctx.fail("repro:" + os.path.basename(f), "pinned regression fails: " + p.stdout[-300:], {"script": f})
+    bounds_checked(ctx, *((4, 5, 7, 300) if quick else (5, 7, 9, 3000)))
     ops = list(real_ops(ctx, dmax, cmax, fdmax, nrand))
     outs = ctx.lean_run([o[0] for o in ops])
     mism = []
